@@ -1,13 +1,14 @@
 import Xrl.Lemmas.JumpRatio
+import Xrl.Gen.F_cs_line
+import Xrl.Gen.F_cs_barns
 /-!
 # C09 — jump-ratio XRF cross sections = photo cross section × jump share × yield × rate
 
 Every theorem is about the definitions generated from src/cs_line.c and src/cs_barns.c of the working tree
 (`Gen.Jump_from_K/L1/L2/L3`, `Gen.CS_FluorShell`, `Gen.CS_FluorLine`, `Gen.CSb_FluorShell`, `Gen.CSb_FluorLine`), for every
 table content `T`, every `int` argument, every real energy and every non-full error slot.  The expectations are in
-Spec/JumpRatio.lean.  Hypotheses: the shape of the photo table (`vecOkB`, as in C02), the edge-order invariant
-`edgeOrderB` (L2/L3), and — for the functions that multiply by `CS_Photo` — that the share is not exactly zero
-(`shareNonzeroB`; the full statements without it are refuted below).
+Spec/JumpRatio.lean.  Hypotheses: the shape of the photo table (`vecOkB`, as in C02) and the edge-order invariant
+`edgeOrderB` (L2/L3), both executable and evaluated on the shipped tables by the driver.
 -/
 namespace Xrl
 namespace C09
@@ -37,8 +38,11 @@ theorem jump_from_K_spec : Meets (Gen.Jump_from_K T Z E error) error (shellFacto
       rcases cJ with ⟨jpos, rJ⟩ | ⟨j0, e, h1, h2, rJ⟩
       · simp only [rJ, bind_ok]
         rcases cW with ⟨wpos, rW⟩ | ⟨w0, e, h1, h2, rW⟩
-        · simp only [rW, bind_ok]
-          simp [jpos, wpos, jpos.ne', wpos.ne', Meets, Returns]
+        · simp only [rW, bind_ok, nonzero, deq_real, lit0, setErr_notFull he]
+          by_cases h0 : jump T Z 0 - 1 = 0
+          · simp [jpos, wpos, jpos.ne', wpos.ne', h0, Meets]
+            xrl_finish
+          · simp [jpos, wpos, jpos.ne', wpos.ne', h0, Meets, Returns]
         · simp only [rW, bind_ok]
           simp [jpos, jpos.ne', w0, Meets]
           exact fails_of_eq h1 h2 rfl
@@ -55,14 +59,9 @@ theorem jump_from_K_spec : Meets (Gen.Jump_from_K T Z E error) error (shellFacto
 
 /-- L1: `(J_L1 − 1)/J_L1 · [1/J_K above the K edge] · ω_L1` above the L1 edge -/
 theorem jump_from_L1_spec : Meets (Gen.Jump_from_L1 T Z E error) error (shellFactor T Z Hdr.L1_SHELL E) := by
-  unfold Gen.Jump_from_L1
-  simp only [edge_null, jump_null, fyield_null, ck_null, bind_ok, ddiv, deq_real, lit0, lit1, setErr_notFull he]
-  simp only [shellFactor, vacancy, tau, above_0, above_1, screening, excited_iff, avail_jump, avail_fyield,
-    Hdr.K_SHELL, Hdr.L1_SHELL, Hdr.L2_SHELL, Hdr.L3_SHELL, decide_eq_true_eq, if_true, lit0, lit1, Int.reduceEq, if_false]
-  have := jump_nonneg T Z 0
-  have := jump_nonneg T Z 1
-  have := fyield_nonneg T Z 1
-  c09_crunch
+  simp only [Hdr.L1_SHELL]
+  rw [shellFactor_L1 T Z E]
+  exact jump_from_L1_flat T Z E error he
 
 /-- L2: `(τ_L2 + f12 τ_L1) ω_L2` above the L2 edge -/
 theorem jump_from_L2_spec (hO : edgeOrderB T Z = true) :
@@ -99,10 +98,10 @@ theorem jumpers_spec (shell : Int) (hs : 0 ≤ shell ∧ shell ≤ 3) (hO : edge
 
 /-- **shell cross section** `= CS_Photo · V_s · ω_s` for K, L1, L2, L3; error for invalid `Z`, `E ≤ 0`, a shell outside
 K..L3, below the sub-shell edge, when a required jump ratio, yield or Coster–Kronig probability is unavailable or when
-`CS_Photo` fails — wherever the share is not exactly zero (`hNZ`; without it: `fluorshell_jump_stmt_fails`) -/
-theorem fluorshell_jump_partial (shell : Int)
+`CS_Photo` fails, or when the share is exactly zero (jump ratio 1: the product would be the error sentinel 0.0) -/
+theorem fluorshell_jump_spec (shell : Int)
     (hP : vecOkB (T.E_Photo_arr Z.toNat) (T.CS_Photo_arr Z.toNat) (T.CS_Photo_arr2 Z.toNat) (T.NE_Photo Z.toNat) = true)
-    (hO : edgeOrderB T Z = true) (hNZ : shareNonzeroB T Z shell E = true) :
+    (hO : edgeOrderB T Z = true) :
     Meets (Gen.CS_FluorShell T Z shell E error) error (Spec.CS_FluorShell T Z shell E) := by
   unfold Gen.CS_FluorShell Spec.CS_FluorShell
   simp only [zOk, mOk, Hdr.ZMAX, Hdr.K_SHELL, Hdr.L3_SHELL, decide_eq_true_eq, lit0, deq_real, setErr_notFull he]
@@ -127,7 +126,7 @@ theorem fluorshell_jump_partial (shell : Int)
         have mJ := jumpers_spec T Z E error he shell hs' hO
         have mP := C02.site_spec_CS_Photo T Z E
         rcases Meets.cases mJ with ⟨f, hf, rf⟩ | ⟨hf, e, h1, h2, rf⟩ | hany
-        · have fne : f ≠ 0 := (shareNonzero_iff T Z shell E).mp hNZ f hf
+        · have fne : f ≠ 0 := shellFactor_value_ne_zero T Z shell E hf
           simp only [rf, hf, bind_ok, fne, if_false]
           rcases Meets.cases (mP error he hP) with ⟨c, hc, rc⟩ | ⟨hc, e, h1, h2, rc⟩ | hany
           · have cpos := (interp_exp_pos (by unfold Spec.CS_Photo at hc; exact hc)).ne'
@@ -148,40 +147,40 @@ include he
 /-- single lines and the K-alpha, K-beta, L-alpha groups: shell value of the line's shell × `RadRate` -/
 theorem fluorline_single (line : Int) (hl : line ≠ 3)
     (hP : vecOkB (T.E_Photo_arr Z.toNat) (T.CS_Photo_arr Z.toNat) (T.CS_Photo_arr2 Z.toNat) (T.NE_Photo Z.toNat) = true)
-    (hO : edgeOrderB T Z = true) (hNZ : ∀ s, lineShell line = some s → shareNonzeroB T Z s E = true) :
+    (hO : edgeOrderB T Z = true) :
     Meets (Gen.CS_FluorLine T Z line E error) error (Spec.CS_FluorLine T Z line E) := by
   unfold Gen.CS_FluorLine Spec.CS_FluorLine
   simp only [Hdr.LB_LINE, hl, if_false]
   by_cases hK : line ≥ -29 ∧ line ≤ 1
   · have hs := lineShell_K line hK
-    have hS := fluorshell_jump_partial T Z E error he 0 hP hO (hNZ 0 hs)
+    have hS := fluorshell_jump_spec T Z E error he 0 hP hO
     simp only [hK, hs, if_true, and_self]
-    c09_line hS, (fun v hv => fluorShell_value_ne_zero T Z E 0 (hNZ 0 hs) hv), (fluorShell_ne_any T Z E 0)
+    c09_line hS, (fun v hv => fluorShell_value_ne_zero T Z E 0 hv), (fluorShell_ne_any T Z E 0)
   · simp only [hK, if_false]
     by_cases hL : (line ≤ -30 ∧ line ≥ -113) ∨ line = 2
     · simp only [hL, if_true]
       by_cases r1 : line ≥ -58 ∧ line ≤ -30
       · have hs := lineShell_L1 line r1
-        have hS := fluorshell_jump_partial T Z E error he 1 hP hO (hNZ 1 hs)
+        have hS := fluorshell_jump_spec T Z E error he 1 hP hO
         simp only [r1, hs, if_true, and_self]
-        c09_line hS, (fun v hv => fluorShell_value_ne_zero T Z E 1 (hNZ 1 hs) hv), (fluorShell_ne_any T Z E 1)
+        c09_line hS, (fun v hv => fluorShell_value_ne_zero T Z E 1 hv), (fluorShell_ne_any T Z E 1)
       · by_cases r2 : line ≥ -85 ∧ line ≤ -59
         · have hs := lineShell_L2 line r2
-          have hS := fluorshell_jump_partial T Z E error he 2 hP hO (hNZ 2 hs)
+          have hS := fluorshell_jump_spec T Z E error he 2 hP hO
           simp only [r1, r2, hs, if_true, if_false, and_self]
-          c09_line hS, (fun v hv => fluorShell_value_ne_zero T Z E 2 (hNZ 2 hs) hv), (fluorShell_ne_any T Z E 2)
+          c09_line hS, (fun v hv => fluorShell_value_ne_zero T Z E 2 hv), (fluorShell_ne_any T Z E 2)
         · have r3 : line ≤ -86 ∨ line = 2 := by omega
           have hs := lineShell_L3 line (by omega)
-          have hS := fluorshell_jump_partial T Z E error he 3 hP hO (hNZ 3 hs)
+          have hS := fluorshell_jump_spec T Z E error he 3 hP hO
           simp only [r1, r2, r3, hs, if_true, if_false, and_self]
-          c09_line hS, (fun v hv => fluorShell_value_ne_zero T Z E 3 (hNZ 3 hs) hv), (fluorShell_ne_any T Z E 3)
+          c09_line hS, (fun v hv => fluorShell_value_ne_zero T Z E 3 hv), (fluorShell_ne_any T Z E 3)
     · have hs := lineShell_none line (by omega)
       simp only [hL, hl, hs, if_false, setErr_notFull he, Meets]
       xrl_finish
 
 
 /-- L-beta: photo cross section × Σ over the 15 members `Spec.lbMembers` of (share of the member's shell) × (member rate);
-"excitation energy too low" when that sum is exactly 0.  No non-zero-share hypothesis is needed here. -/
+"excitation energy too low" when that sum is exactly 0 -/
 theorem fluorline_LB
     (hP : vecOkB (T.E_Photo_arr Z.toNat) (T.CS_Photo_arr Z.toNat) (T.CS_Photo_arr2 Z.toNat) (T.NE_Photo Z.toNat) = true)
     (hO : edgeOrderB T Z = true) :
@@ -212,13 +211,13 @@ theorem fluorline_LB
 
 /-- **line cross section for every macro value**: K, L1, L2, L3 lines and the K-alpha/K-beta/L-alpha groups are the shell
 value × `RadRate` (group rates as in C10), L-beta is the member sum, any other value is rejected -/
-theorem fluorline_jump_partial (line : Int)
+theorem fluorline_jump_spec (line : Int)
     (hP : vecOkB (T.E_Photo_arr Z.toNat) (T.CS_Photo_arr Z.toNat) (T.CS_Photo_arr2 Z.toNat) (T.NE_Photo Z.toNat) = true)
-    (hO : edgeOrderB T Z = true) (hNZ : ∀ s, lineShell line = some s → shareNonzeroB T Z s E = true) :
+    (hO : edgeOrderB T Z = true) :
     Meets (Gen.CS_FluorLine T Z line E error) error (Spec.CS_FluorLine T Z line E) := by
   by_cases hl : line = 3
   · subst hl; exact fluorline_LB T Z E error he hP hO
-  · exact fluorline_single T Z E error he line hl hP hO hNZ
+  · exact fluorline_single T Z E error he line hl hP hO
 
 end lines
 
@@ -249,22 +248,6 @@ theorem lb_members_vs_kissel :
     lbMembersKissel.all (fun m => lbMembers.contains m) = true ∧ lbMembers.length = 15 ∧ lbMembersKissel.length = 13 ∧
     Hdr.doublets.contains (Hdr.L3O45_LINE, Hdr.L3O4_LINE, Hdr.L3O5_LINE) = true := by decide
 
-/-! ## the share is not exactly zero -/
-
-/-- for K the hypothesis `shareNonzeroB` is `J_K ≠ 1` -/
-theorem shareNonzero_K (h : jump T Z 0 ≠ 1) : shareNonzeroB T Z Hdr.K_SHELL E = true := by
-  rw [shareNonzero_iff]
-  intro f hf
-  simp only [Hdr.K_SHELL] at hf
-  rw [shellFactor_K] at hf
-  split_ifs at hf with h1 h2 h3
-  injection hf with hf
-  rw [← hf]
-  have : jump T Z 0 - 1 ≠ 0 := fun h0 => h (by linarith)
-  exact mul_ne_zero (div_ne_zero this h2.ne') h3.ne'
-
-
-
 /-! ## per-atom twins (cs_barns.c): value × atomic weight / Avogadro's constant -/
 
 section twins
@@ -272,171 +255,49 @@ include he
 
 theorem barn_twin_CSb_FluorShell (shell : Int)
     (hP : vecOkB (T.E_Photo_arr Z.toNat) (T.CS_Photo_arr Z.toNat) (T.CS_Photo_arr2 Z.toNat) (T.NE_Photo Z.toNat) = true)
-    (hO : edgeOrderB T Z = true) (hNZ : shareNonzeroB T Z shell E = true) :
+    (hO : edgeOrderB T Z = true) :
     Meets (Gen.CSb_FluorShell T Z shell E error) error (Spec.CSb_FluorShell T Z shell E) := by
   unfold Gen.CSb_FluorShell Spec.CSb_FluorShell
-  exact C05.barn_twin T Z error he (Gen.CS_FluorShell T Z shell E) _ (fluorshell_jump_partial T Z E error he shell hP hO hNZ)
-    (fun v hv => fluorShell_value_ne_zero T Z E shell hNZ hv) (fluorShell_ne_any T Z E shell)
+  exact C05.barn_twin T Z error he (Gen.CS_FluorShell T Z shell E) _ (fluorshell_jump_spec T Z E error he shell hP hO)
+    (fun v hv => fluorShell_value_ne_zero T Z E shell hv) (fluorShell_ne_any T Z E shell)
 
 theorem barn_twin_CSb_FluorLine (line : Int)
     (hP : vecOkB (T.E_Photo_arr Z.toNat) (T.CS_Photo_arr Z.toNat) (T.CS_Photo_arr2 Z.toNat) (T.NE_Photo Z.toNat) = true)
-    (hO : edgeOrderB T Z = true) (hNZ : ∀ s, lineShell line = some s → shareNonzeroB T Z s E = true) :
+    (hO : edgeOrderB T Z = true) :
     Meets (Gen.CSb_FluorLine T Z line E error) error (Spec.CSb_FluorLine T Z line E) := by
   unfold Gen.CSb_FluorLine Spec.CSb_FluorLine
-  exact C05.barn_twin T Z error he (Gen.CS_FluorLine T Z line E) _ (fluorline_jump_partial T Z E error he line hP hO hNZ)
-    (fun v hv => fluorLine_value_ne_zero T Z E line hNZ hv) (fluorLine_ne_any T Z E line)
+  exact C05.barn_twin T Z error he (Gen.CS_FluorLine T Z line E) _ (fluorline_jump_spec T Z E error he line hP hO)
+    (fun v hv => fluorLine_value_ne_zero T Z E line hv) (fluorLine_ne_any T Z E line)
 
 end twins
 
-/-! ## The full statements (no `shareNonzeroB`), and why they fail -/
+/-! ## the hypotheses are satisfiable -/
 
-def PhotoShape (T : Tables ℝ) (Z : Int) : Prop :=
-  vecOkB (T.E_Photo_arr Z.toNat) (T.CS_Photo_arr Z.toNat) (T.CS_Photo_arr2 Z.toNat) (T.NE_Photo Z.toNat) = true
-
-def fluorshell_jump_stmt : Prop :=
-  ∀ (T : Tables ℝ) (Z shell : Int) (E : ℝ) (error : Slot), error.isFull = false → PhotoShape T Z → edgeOrderB T Z = true →
-    Meets (Gen.CS_FluorShell T Z shell E error) error (Spec.CS_FluorShell T Z shell E)
-
-def fluorline_jump_stmt : Prop :=
-  ∀ (T : Tables ℝ) (Z line : Int) (E : ℝ) (error : Slot), error.isFull = false → PhotoShape T Z → edgeOrderB T Z = true →
-    Meets (Gen.CS_FluorLine T Z line E error) error (Spec.CS_FluorLine T Z line E)
-
-def barn_twin_CSb_FluorShell_stmt : Prop :=
-  ∀ (T : Tables ℝ) (Z shell : Int) (E : ℝ) (error : Slot), error.isFull = false → PhotoShape T Z → edgeOrderB T Z = true →
-    Meets (Gen.CSb_FluorShell T Z shell E error) error (Spec.CSb_FluorShell T Z shell E)
-
-def barn_twin_CSb_FluorLine_stmt : Prop :=
-  ∀ (T : Tables ℝ) (Z line : Int) (E : ℝ) (error : Slot), error.isFull = false → PhotoShape T Z → edgeOrderB T Z = true →
-    Meets (Gen.CSb_FluorLine T Z line E error) error (Spec.CSb_FluorLine T Z line E)
-
-/-- a table with K…L3 edges at 1 keV, jump ratio `J`, yields and rates 1, and no photo-absorption data -/
-noncomputable def witT (J : ℝ) : Tables ℝ :=
+/-- a table with K…L3 edges at 1 keV, jump ratios 2, yields and rates 1, and no photo-absorption data -/
+noncomputable def witT : Tables ℝ :=
   { (default : Tables ℝ) with
-    EdgeEnergy_arr := fun _ _ => 1, JumpFactor_arr := fun _ _ => J, FluorYield_arr := fun _ _ => 1,
+    EdgeEnergy_arr := fun _ _ => 1, JumpFactor_arr := fun _ _ => 2, FluorYield_arr := fun _ _ => 1,
     RadRate_arr := fun _ _ => 1, NE_Photo := fun _ => -1 }
 
-section witness
-set_option linter.unusedSectionVars false
-variable (J : ℝ) (hJ : 0 < J)
-include hJ
-
-theorem wit_edge (s : Int) (hs : 0 ≤ s ∧ s ≤ 3) : edge (witT J) 1 s = 1 := by
+theorem wit_edge (s : Int) (hs : 0 ≤ s ∧ s ≤ 3) : edge witT 1 s = 1 := by
   have : s ≤ 27 := by omega
   simp [edge, Spec.EdgeEnergy, lookup2, zOk, mOk, witT, valOr0, Hdr.ZMAX, Hdr.K_SHELL, Hdr.SHELLNUM, this, hs.1, lit0]
-theorem wit_jump (s : Int) (hs : 0 ≤ s ∧ s ≤ 3) : jump (witT J) 1 s = J := by
-  have : s ≤ 27 := by omega
-  simp [jump, Spec.JumpFactor, lookup2, zOk, mOk, witT, valOr0, Hdr.ZMAX, Hdr.K_SHELL, Hdr.SHELLNUM, this, hs.1, lit0, hJ]
-theorem wit_fyield (s : Int) (hs : 0 ≤ s ∧ s ≤ 3) : fyield (witT J) 1 s = 1 := by
+theorem wit_fyield (s : Int) (hs : 0 ≤ s ∧ s ≤ 3) : fyield witT 1 s = 1 := by
   have : s ≤ 27 := by omega
   simp [fyield, Spec.FluorYield, lookup2, zOk, mOk, witT, valOr0, Hdr.ZMAX, Hdr.K_SHELL, Hdr.SHELLNUM, this, hs.1, lit0]
 
-theorem wit_order : edgeOrderB (witT J) 1 = true := by
+theorem wit_order : edgeOrderB witT 1 = true := by
   rw [edgeOrder_iff]
-  simp [wit_edge J hJ, wit_fyield J hJ]
+  simp [wit_edge, wit_fyield]
 
-omit hJ in
-theorem wit_shape : PhotoShape (witT J) 1 := by
-  simp [PhotoShape, vecOkB, witT]
+theorem wit_shape : vecOkB (witT.E_Photo_arr (1 : Int).toNat) (witT.CS_Photo_arr (1 : Int).toNat)
+    (witT.CS_Photo_arr2 (1 : Int).toNat) (witT.NE_Photo (1 : Int).toNat) = true := by
+  simp [vecOkB, witT]
 
-theorem wit_share : shellFactor (witT J) 1 0 2 = .value ((J - 1) / J) := by
-  rw [shellFactor_K]
-  simp [wit_edge J hJ, wit_jump J hJ, wit_fyield J hJ, hJ]
-
-omit hJ in
-theorem wit_photo : Spec.CS_Photo (witT J) 1 2 = .fails := by
-  simp [Spec.CS_Photo, interp, witT]
-
-omit hJ in
-theorem wit_rate : Spec.RadRate (witT J) 1 (-1) = .value 1 := by
-  simp [Spec.RadRate, singleRate, zOk, isLineMacro, rCell, witT, Hdr.ZMAX, Hdr.KA_LINE, Hdr.KB_LINE, Hdr.LA_LINE, Hdr.LB_LINE,
-    Hdr.LINENUM, lit0]
-
-omit hJ in
-/-- with `J = 1` the specification expects an error (no photo data) … -/
-theorem wit_spec : Spec.CS_FluorShell (witT 1) 1 0 2 = .fails := by
-  simp [Spec.CS_FluorShell, wit_share 1 one_pos, wit_photo, zOk, mOk, Hdr.ZMAX, Hdr.K_SHELL, Hdr.L3_SHELL, lit0]
-
-omit hJ in
-/-- … but the code returns 0.0 and leaves the error slot empty -/
-theorem wit_code : Gen.CS_FluorShell (witT 1) 1 0 2 Slot.empty = Except.ok (0, Slot.empty) := by
-  have h := jump_from_K_spec (witT 1) 1 2 Slot.empty rfl
-  simp only [Hdr.K_SHELL, wit_share 1 one_pos, Meets, Returns] at h
-  unfold Gen.CS_FluorShell
-  simp [h, lit0]
-
-omit hJ in
-theorem not_fails_empty : ¬ Fails (Except.ok ((0 : ℝ), Slot.empty) : M (ℝ × Slot)) Slot.empty := by
-  rintro ⟨e, _, _, h⟩
-  simp [Slot.withErr] at h
-
-omit hJ in
-theorem fluorshell_jump_stmt_fails : ¬ fluorshell_jump_stmt := by
-  intro h
-  have := h (witT 1) 1 0 2 Slot.empty rfl (wit_shape 1) (wit_order 1 one_pos)
-  rw [wit_spec, wit_code] at this
-  exact not_fails_empty this
-
-omit hJ in
-theorem wit_line_code : Gen.CS_FluorLine (witT 1) 1 (-1) 2 Slot.empty = Except.ok (0, Slot.empty) := by
-  have hr := C10.rad_rate_spec (witT 1) 1 Slot.empty rfl (-1)
-  simp only [wit_rate, Meets, Returns] at hr
-  unfold Gen.CS_FluorLine
-  simp [hr, wit_code, lit0]
-
-omit hJ in
-theorem wit_line_spec : Spec.CS_FluorLine (witT 1) 1 (-1) 2 = .fails := by
-  have : lineShell (-1) = some 0 := lineShell_K (-1) (by omega)
-  simp [Spec.CS_FluorLine, Hdr.LB_LINE, this, wit_rate, wit_spec, timesRate]
-
-omit hJ in
-theorem fluorline_jump_stmt_fails : ¬ fluorline_jump_stmt := by
-  intro h
-  have := h (witT 1) 1 (-1) 2 Slot.empty rfl (wit_shape 1) (wit_order 1 one_pos)
-  rw [wit_line_spec, wit_line_code] at this
-  exact not_fails_empty this
-
-omit hJ in
-theorem barn_twin_CSb_FluorShell_stmt_fails : ¬ barn_twin_CSb_FluorShell_stmt := by
-  intro h
-  have := h (witT 1) 1 0 2 Slot.empty rfl (wit_shape 1) (wit_order 1 one_pos)
-  have hc : Gen.CSb_FluorShell (witT 1) 1 0 2 Slot.empty = Except.ok (0, Slot.empty) := by
-    unfold Gen.CSb_FluorShell; simp [wit_code, lit0]
-  rw [hc] at this
-  simp only [Spec.CSb_FluorShell, wit_spec, toBarn, Meets] at this
-  exact not_fails_empty this
-
-omit hJ in
-theorem barn_twin_CSb_FluorLine_stmt_fails : ¬ barn_twin_CSb_FluorLine_stmt := by
-  intro h
-  have := h (witT 1) 1 (-1) 2 Slot.empty rfl (wit_shape 1) (wit_order 1 one_pos)
-  have hc : Gen.CSb_FluorLine (witT 1) 1 (-1) 2 Slot.empty = Except.ok (0, Slot.empty) := by
-    unfold Gen.CSb_FluorLine; simp [wit_line_code, lit0]
-  rw [hc] at this
-  simp only [Spec.CSb_FluorLine, wit_line_spec, toBarn, Meets] at this
-  exact not_fails_empty this
-
-/-! ## the hypotheses are satisfiable (jump ratio 2) -/
-omit hJ in
-theorem wit_nonzero : shareNonzeroB (witT 2) 1 0 2 = true := by
-  rw [shareNonzero_iff]
-  intro f hf
-  rw [wit_share 2 two_pos] at hf
-  injection hf with hf
-  rw [← hf]; norm_num
-
-
-example : ∃ (T : Tables ℝ) (Z shell : Int) (E : ℝ) (error : Slot), error.isFull = false ∧ PhotoShape T Z ∧
-    edgeOrderB T Z = true ∧ shareNonzeroB T Z shell E = true :=
-  ⟨witT 2, 1, 0, 2, Slot.empty, rfl, wit_shape 2, wit_order 2 two_pos, wit_nonzero⟩
-
-example : ∃ (T : Tables ℝ) (Z line : Int) (E : ℝ) (error : Slot), error.isFull = false ∧ PhotoShape T Z ∧
-    edgeOrderB T Z = true ∧ ∀ s, lineShell line = some s → shareNonzeroB T Z s E = true :=
-  ⟨witT 2, 1, -1, 2, Slot.empty, rfl, wit_shape 2, wit_order 2 two_pos, fun s hs => by
-    rw [lineShell_K (-1) (by omega)] at hs
-    injection hs with hs
-    rw [← hs]; exact wit_nonzero⟩
-
-end witness
+example : ∃ (T : Tables ℝ) (Z : Int) (error : Slot), error.isFull = false ∧
+    vecOkB (T.E_Photo_arr Z.toNat) (T.CS_Photo_arr Z.toNat) (T.CS_Photo_arr2 Z.toNat) (T.NE_Photo Z.toNat) = true ∧
+    edgeOrderB T Z = true :=
+  ⟨witT, 1, Slot.empty, rfl, wit_shape, wit_order⟩
 
 end C09
 end Xrl
